@@ -18,8 +18,10 @@ VARIABLES l,      \* next trace line
           dl,     \* delivered result rows: [ws, g, ids, at]
           pwm,    \* watermark of the last COMPLETED trigger pass logged so far (processed watermark)
           dead,   \* current trace already rejected
-          used    \* deviations used in the current trace
-vars == <<l, cfg, em, maxTs, dl, pwm, dead, used>>
+          used,   \* deviations used in the current trace
+          ldt,    \* idle-timeout scenarios: wall-clock time (µs) at which the last row KNOWN to have reached the window was handed in
+          idled   \* an idle-justified delivery was seen: the engine's watermark now runs on processing time
+vars == <<l, cfg, em, maxTs, dl, pwm, dead, used, ldt, idled>>
 
 Step(k)  == IF cfg.kind = "sliding" THEN cfg.slide ELSE cfg.size
 AlignTo(t, k) == (t \div k) * k
@@ -37,6 +39,10 @@ Covers(t) == IF cfg.kind = "sliding"
 PrevOf(ws, g) == {i \in 1..Len(dl) : dl[i].ws = ws /\ dl[i].g = g}
 WinSeen(ws)   == \E i \in 1..Len(dl) : dl[i].ws = ws
 
+\* C02: "... or the idle timeout elapsed": no row reached the window during the IDLETIMEOUT before the delivery.
+\* ldt is a lower bound of the engine's own "last event" clock, the delivery time an upper bound of its tick.
+Idle == IF "idle" \in DOMAIN cfg THEN cfg.idle ELSE 0
+IdleJustified(r) == Idle > 0 /\ ldt >= 0 /\ "t" \in DOMAIN r /\ r.t - ldt >= Idle
 \* code "" = row acceptable, otherwise the name of the violated clause
 RowCode(r) ==
   IF r.wsr # 0 \/ r.wer # 0 \/ r.ws < 0 THEN "boundary_not_on_tick"
@@ -51,7 +57,8 @@ RowCode(r) ==
   ELSE IF \E k \in 1..Len(r.ids) : em[r.ids[k]].fut = 1 THEN "future_garbage_counted"
   ELSE IF r.c # Len(r.ids) THEN "count_mismatch"
   ELSE IF r.s # SumV(r.ids) THEN "sum_mismatch"
-  ELSE IF maxTs < r.we + cfg.moo THEN "fired_before_watermark"
+  ELSE IF idled THEN ""            \* after an idle flush: which rows are late / owed is no longer known to the trace
+  ELSE IF maxTs < r.we + cfg.moo /\ ~IdleJustified(r) THEN "fired_before_watermark"
   ELSE LET prev == PrevOf(r.ws, r.g) IN
        IF prev = {} THEN
             \* first result of (interval, group): if the interval was already delivered, its rows are late ones
@@ -117,7 +124,7 @@ LateOwed == {id \in 1..Len(em) :
                     /\ ~\E i \in 1..Len(dl) : dl[i].ws = ws /\ dl[i].at > em[id].at /\ id \in SeqSet(dl[i].ids)}
 
 QuiesceCode ==
-  IF OnTime = {} THEN ""
+  IF OnTime = {} \/ idled THEN ""       \* after an idle flush the watermark is the wall clock: which later rows are on time is not known to the trace
   ELSE IF Lost # {} THEN "ontime_row_lost"
   ELSE IF LateOwed # {} THEN "late_row_in_allowance_not_redelivered"
   ELSE IF \E i \in 1..Len(dl) : dl[i].ws < S0 /\ cfg.kind = "sliding" /\ \A id \in SeqSet(dl[i].ids) : ~em[id].late THEN "interval_before_first_reportable"
@@ -127,42 +134,46 @@ QuiesceCode ==
 Reject(code) == /\ PrintT(<<"REJECT", cfg.tr, l, code>>) /\ dead' = TRUE
 UseDev(d)    == /\ PrintT(<<"DEV", cfg.tr, l, d>>) /\ used' = used \cup {d}
 
-Init == /\ l = 1 /\ cfg = [tr |-> -1] /\ em = <<>> /\ maxTs = -1 /\ dl = <<>> /\ pwm = -1000000 /\ dead = FALSE /\ used = {}
+Init == /\ l = 1 /\ cfg = [tr |-> -1] /\ em = <<>> /\ maxTs = -1 /\ dl = <<>> /\ pwm = -1000000 /\ dead = FALSE /\ used = {} /\ ldt = -1 /\ idled = FALSE
 
 Next ==
   /\ l <= Len(Trace)
   /\ l' = l + 1
   /\ LET e == Trace[l] IN
      IF e.e = "reset" THEN
-        /\ cfg' = e /\ em' = <<>> /\ maxTs' = -1 /\ dl' = <<>> /\ pwm' = -1000000 /\ dead' = FALSE /\ used' = {}
-     ELSE IF dead THEN UNCHANGED <<cfg, em, maxTs, dl, pwm, dead, used>>
+        /\ cfg' = e /\ em' = <<>> /\ maxTs' = -1 /\ dl' = <<>> /\ pwm' = -1000000 /\ dead' = FALSE /\ used' = {} /\ ldt' = -1 /\ idled' = FALSE
+     ELSE IF dead THEN UNCHANGED <<cfg, em, maxTs, dl, pwm, dead, used, ldt, idled>>
+     ELSE IF e.e = "added" THEN
+        /\ ldt' = IF e.id >= 1 /\ e.id <= Len(em) THEN em[e.id].t ELSE ldt
+        /\ UNCHANGED <<cfg, em, maxTs, dl, pwm, dead, used, idled>>
      ELSE IF e.e = "add" THEN
         LET fut  == IF "fut" \in DOMAIN e THEN e.fut ELSE 0
             m1   == IF fut = 1 THEN maxTs ELSE IF e.ts > maxTs THEN e.ts ELSE maxTs
             late == fut = 0 /\ maxTs >= 0 /\ e.ts < m1 - cfg.moo
-        IN /\ em' = Append(em, [ts |-> e.ts, g |-> e.g, v |-> e.v, late |-> late, wmAt |-> m1 - cfg.moo, pwmAt |-> pwm, at |-> l, fut |-> fut])
+        IN /\ em' = Append(em, [ts |-> e.ts, g |-> e.g, v |-> e.v, late |-> late, wmAt |-> m1 - cfg.moo, pwmAt |-> pwm, at |-> l, fut |-> fut, t |-> IF "t" \in DOMAIN e THEN e.t ELSE 0])
            /\ maxTs' = m1
            /\ IF e.id # Len(em) + 1 THEN Reject("harness_ids_not_sequential") ELSE UNCHANGED dead
-           /\ UNCHANGED <<cfg, dl, pwm, used>>
+           /\ UNCHANGED <<cfg, dl, pwm, used, ldt, idled>>
      ELSE IF e.e = "deliver" THEN
         LET code == DeliverCode(e) IN
         IF code = "" THEN
             /\ dl' = dl \o [i \in 1..Len(e.rows) |-> [ws |-> e.rows[i].ws, g |-> e.rows[i].g, ids |-> e.rows[i].ids, at |-> l]]
-            /\ UNCHANGED <<cfg, em, maxTs, pwm, dead, used>>
+            /\ idled' = (idled \/ \E i \in 1..Len(e.rows) : maxTs < e.rows[i].we + cfg.moo)
+            /\ UNCHANGED <<cfg, em, maxTs, pwm, dead, used, ldt>>
         ELSE IF code = "redelivery_lost_rows" /\ "LateUpdateOvertakes" \in Dev /\ OvertakeShape(e) THEN
             \* known race: the late update of a window was enqueued before its first firing
             /\ UseDev("LateUpdateOvertakes")
             /\ dl' = dl \o [i \in 1..Len(e.rows) |-> [ws |-> e.rows[i].ws, g |-> e.rows[i].g, ids |-> e.rows[i].ids, at |-> l]]
-            /\ UNCHANGED <<cfg, em, maxTs, pwm, dead>>
-        ELSE Reject(code) /\ UNCHANGED <<cfg, em, maxTs, dl, pwm, used>>
+            /\ UNCHANGED <<cfg, em, maxTs, pwm, dead, ldt, idled>>
+        ELSE Reject(code) /\ UNCHANGED <<cfg, em, maxTs, dl, pwm, used, ldt, idled>>
      ELSE IF e.e = "quiesce" THEN
         LET code == QuiesceCode IN
         /\ IF code = "" THEN UNCHANGED <<dead, used>> ELSE Reject(code) /\ UNCHANGED used
-        /\ UNCHANGED <<cfg, em, maxTs, dl, pwm>>
+        /\ UNCHANGED <<cfg, em, maxTs, dl, pwm, ldt, idled>>
      ELSE IF e.e = "pwm" THEN
         /\ pwm' = IF e.wm > pwm THEN e.wm ELSE pwm
-        /\ UNCHANGED <<cfg, em, maxTs, dl, dead, used>>
-     ELSE UNCHANGED <<cfg, em, maxTs, dl, pwm, dead, used>>     \* trig / send lines: schedule information only
+        /\ UNCHANGED <<cfg, em, maxTs, dl, dead, used, ldt, idled>>
+     ELSE UNCHANGED <<cfg, em, maxTs, dl, pwm, dead, used, ldt, idled>>     \* trig / send lines: schedule information only
 
 Spec == Init /\ [][Next]_vars
 Done == l = Len(Trace) + 1
